@@ -34,13 +34,17 @@ CHECKS = {
             "on the specification's own state machine", "6-C10"),
     "C11": ("rsv ls --mode cand enumerates RSSchedParallelNeighborhood::neighbors_of on random (not only improving) walks; TLC "
             "evaluates SchedView.tla!SchedInv and CachesOK on every projected candidate; enumeration must not panic and the base "
-            "projection digest must be unchanged", "6-C11"),
+            "projection digest must be unchanged; Swaps.tla models the four swaps as compositions of the Schedule.tla actions "
+            "(fit_reassign as a function) and the enumeration of tried swaps: TraceSwap.tla requires every candidate to equal what "
+            "its swap yields on the base schedule (up to improve_depots' depot choice) and the set of candidates to be exactly the "
+            "set of applicable model swaps", "6-C11"),
     "C12": ("Gen_Tour.tla: TLC enumerates ALL tiny networks (<=2 quick / <=3 thorough activities, ties, zero shunting, forbidden "
             "and asymmetric dead-heads), checks the laws of the reference insert/remove semantics and emits every valid tour, "
             "path and segment; rsv tour executes them on the real Tour code; TraceTour.tla validates every result", "6-C12"),
     "C13": ("Schedule.tla: reference semantics Pre_X / Res_X of each public modification (whole next abstract state, hence frame "
             "conditions; relational for heuristics); TraceSched.tla checks every observed (pre, call, post) triple of the walks, "
-            "refusals, returned ids, untouched input value; the same formulas on every modification call of the repository's own 51 "
+            "refusals, returned ids, untouched input value; fit_reassign additionally against the greedy function Swaps.tla!FitRes "
+            "(exact result, exact refusal); the same formulas on every modification call of the repository's own 51 "
             "tests (hook H3); MC_Schedule (Det) emits ~20 k model states with histories which are replayed on the real Schedule and "
             "must yield exactly the model state (spec -> implementation)", "6-C13"),
     "C14": ("Circulation.tla: the per-type covering circulation network is built from the abstract instance alone (arcs wherever "
